@@ -143,6 +143,34 @@ class SDefaultDict(SDict):
     __slots__ = ()
 
 
+class SODict(SDict):
+    """insertion-ordered dict (python dicts and networkx node tables keep insertion order): besides the key set and the values,
+    `order` lists the keys in insertion order and `pos` is its inverse (position of a key).  Representation invariant
+    (TODict.rep): order enumerates the keys exactly once and pos inverts it.  Used where code depends on the iteration order;
+    a plain SDict leaves the order arbitrary (sound for order-independent code)."""
+    __slots__ = ("order", "pos")
+
+    def __init__(self, k, v, dom, comps, order, pos):
+        super().__init__(k, v, dom, comps)
+        self.order, self.pos = order, pos
+
+    def __repr__(self):
+        return f"SODict<{self.k},{self.v}>"
+
+
+def sdict_store(d, kt, fl):
+    """d[key] = value  (fl: flattened value): an ordered dict appends a key that is new"""
+    dom = z3.Store(d.dom, kt, True)
+    comps = [z3.Store(c, kt, f) for c, f in zip(d.comps, fl)]
+    if isinstance(d, SODict):
+        had = z3.Select(d.dom, kt)
+        n = d.order.n
+        order = SList(d.order.t, z3.If(had, n, n + 1), [z3.If(had, d.order.comps[0], z3.Store(d.order.comps[0], n, kt))])
+        pos = z3.If(had, d.pos, z3.Store(d.pos, kt, n))
+        return SODict(d.k, d.v, dom, comps, order, pos)
+    return type(d)(d.k, d.v, dom, comps)
+
+
 class SSet:
     __slots__ = ("k", "dom")
 
@@ -543,6 +571,43 @@ class TDict(T):
         return z3.ForAll([x], z3.And(a.dom[x] == b.dom[x], z3.Implies(a.dom[x], self.v.eq(va, vb))))
 
 
+class TODict(TDict):
+    """insertion-ordered dict, see SODict"""
+
+    def __repr__(self):
+        return f"TODict[{self.k},{self.v}]"
+
+    def sorts(self):
+        ks = key_sort_of(self.k)
+        return super().sorts() + [z3.IntSort(), z3.ArraySort(z3.IntSort(), ks), z3.ArraySort(ks, z3.IntSort())]
+
+    def flat(self, v):
+        if not isinstance(v, SODict):
+            raise Unsupported(f"expected an ordered dict, got {v!r}")
+        return [v.dom] + list(v.comps) + [v.order.n, v.order.comps[0], v.pos]
+
+    def unflat(self, terms):
+        return SODict(self.k, self.v, terms[0], terms[1:-3], SList(self.k, terms[-3], [terms[-2]]), terms[-1])
+
+    @staticmethod
+    def rep(v):
+        """representation invariant: order enumerates the key set exactly once, pos is its inverse"""
+        ks = key_sort_of(v.k)
+        i, x = z3.FreshConst(z3.IntSort(), "oi"), z3.FreshConst(ks, "ox")
+        arr, n = v.order.comps[0], v.order.n
+        return [n >= 0,
+                z3.ForAll([i], z3.Implies(z3.And(0 <= i, i < n), z3.And(z3.Select(v.dom, arr[i]), v.pos[arr[i]] == i))),
+                z3.ForAll([x], z3.Implies(z3.Select(v.dom, x), z3.And(0 <= v.pos[x], v.pos[x] < n, arr[v.pos[x]] == x)))]
+
+    def wf(self, v):
+        return self.rep(v)
+
+    def eq(self, a, b):
+        i = z3.FreshConst(z3.IntSort(), "i")
+        return z3.And(super().eq(a, b), a.order.n == b.order.n,
+                      z3.ForAll([i], z3.Implies(z3.And(0 <= i, i < a.order.n), a.order.comps[0][i] == b.order.comps[0][i])))
+
+
 class TDefaultDict(TDict):
     def unflat(self, terms):
         return SDefaultDict(self.k, self.v, terms[0], terms[1:])
@@ -554,10 +619,11 @@ class TDefaultDict(TDict):
         return [z3.ForAll([x], f) for f in facts]
 
 
-def TGraph(attrs, key=None, cls="nx.Graph", **more):
-    """networkx.Graph (and subclasses) as a record: node table and a symmetric adjacency relation over node pairs"""
+def TGraph(attrs, key=None, cls="nx.Graph", ordered=False, **more):
+    """networkx.Graph (and subclasses) as a record: node table and a symmetric adjacency relation over node pairs
+    (ordered: the node table keeps the insertion order of the nodes)"""
     key = key or TNode
-    return TRec(cls, nodes=TDict(key, attrs), adj=TSet(TTuple(key, key)), **more)
+    return TRec(cls, nodes=(TODict if ordered else TDict)(key, attrs), adj=TSet(TTuple(key, key)), **more)
 
 
 class TSet(T):
